@@ -2513,24 +2513,15 @@ where
             return keys;
         }
 
-        let mut current_key = Vec::new();
-
-        for &byte in label_data.iter() {
-            if byte == 0u8 {
-                // Found separator, this completes a key
-                if !current_key.is_empty() {
-                    keys.push(current_key.clone());
-                    current_key.clear();
-                }
-            } else {
-                // Add byte to current key
-                current_key.push(byte);
+        // insert_louds stores records [len_byte][key_bytes...]; walk them like contains_louds_internal
+        let mut pos = 0;
+        while pos < label_data.len() {
+            let stored_len = label_data[pos] as usize;
+            if pos + 1 + stored_len > label_data.len() {
+                break; // truncated record
             }
-        }
-
-        // Handle last key if there's no trailing separator
-        if !current_key.is_empty() {
-            keys.push(current_key);
+            keys.push((0..stored_len).map(|i| label_data[pos + 1 + i]).collect());
+            pos += 1 + stored_len;
         }
 
         // Remove duplicates and sort
